@@ -8,7 +8,10 @@ META = {
                    "sender, or an XOR whose other operand is an own Key/Label-derived value that is not a message component; comparison "
                    "results are not key material. A garbler's fresh zero labels reach a payload only inside AEAD rows or through the "
                    "select operator Label ^ Delta. Plus the claimed-bit rule shared with C04: a bit that arrives with a MAC under the "
-                   "own key must be MAC-checked before it selects the opened key sum. Leakage through combinations of individually "
+                   "own key must be MAC-checked before it selects the opened key sum; a Key/Label pad that is looked up with an index carried in a "
+                   "message does not count as a pad (the peer can have it applied to both values of a bit); and (R2.8) the equality tests that "
+                   "make a peer-chosen Delta offset of an opened value detectable (LaAND hash, d-values, ..) are per element, never on a value "
+                   "folded over the elements of a received vector. Leakage through combinations of individually "
                    "legitimate messages is value-level and not decided.",
     "assumptions": ["hashes / AEAD / OT sender are one-way for Delta", "whether a pad is unknown to a deviating peer is not analysed beyond 'not a message component'"],
 }
@@ -19,6 +22,7 @@ def run(ctx, res):
     cs = r2.enrich(S)
     r6.rule_delta_declass(S, res)
     r6.rule_label_declass(S, res)
+    r2.rule_per_element(S, res, {"pre", "online"}, cs)
     mine = [c for c in cs if "fashare ver" in c.labels and {"CMP", "DELTA"} <= c.ing]
     if mine:
         res.ok("R2.1", "fashare ver|claimed-bit-mac", mine[0].where(), "claimed bit is MAC-checked with the own key and Delta before it selects d0/d1")
